@@ -715,8 +715,8 @@ def calendar(key = None, holidays = None, weekend = None, t0 = None, t1 = None):
             calendars[key.key] = key
             key = key.key
         else:
-            holidays = holidays or list(key.holidays.keys())
-            weekend = weekend or key.weekend
+            holidays = list(key.holidays.keys()) if holidays is None else holidays
+            weekend = key.weekend if weekend is None else weekend
             t0 = t0 or key.t0
             t1 = t1 or key.t1
             key = key.key
